@@ -134,6 +134,13 @@ func kindSample(d ColDesc) (any, bool) {
 }
 
 func (c *Coll) CreateColumn(d ColDesc) error {
+	if d.Name == "expire" {
+		// the time-to-live column exists in every collection (an ordinary int64 column with a reserved name): it is only
+		// adopted, so that the histories write deadlines straight into it and every comparison includes it
+		c.Cols = append(c.Cols, d)
+		c.W.T.Log(Ev{"e": "createcol", "c": c.Name, "n": d.Name, "k": d.Kind, "m": d.Merge})
+		return nil
+	}
 	// every other plain column is created through CreateColumnsOf (kind taken from a sample value)
 	if v, ok := kindSample(d); ok && atomic.AddInt64(&c.creates, 1)%2 == 0 {
 		if err := c.C.CreateColumnsOf(map[string]any{d.Name: v}); err != nil {
@@ -1005,7 +1012,7 @@ func (l *RecLogger) Stored() []Stored {
 // decode lists the operations of one block of one buffer as the commit shows them now.
 func (c *Coll) decode(u *commit.Buffer, chunk commit.Chunk) (out []Ev) {
 	d, isCol := c.Desc(u.Column)
-	if u.Column == "expire" {
+	if u.Column == "expire" && !isCol {
 		d, isCol = ColDesc{Name: "expire", Kind: "int", Repr: "int64"}, true
 	}
 	r := commit.NewReader()
